@@ -15,8 +15,20 @@ TRUSTED_EXEC = ["hand-written small-step Gallina model of compiler.go's executor
 RK = {"": 0, "missing": 1, "err": 1, "panic": 2, "link": 0}
 
 
+def mkind(v):
+    """the model's fault class of a harness fault kind: a source whose reader fails after K bytes ("read:K") is a file that cannot be
+    obtained (like a resolver error: its imports are never known); a reader that panics ("readpanic:K") is a panic for that file"""
+    v = v or ""
+    return "err" if v.startswith("read:") else "panic" if v.startswith("readpanic:") else v
+
+
+def mfaults(faults):
+    return {k: mkind(v) for k, v in (faults or {}).items()}
+
+
 def reach_set(n, imports, req, faults):
     """files reachable from the request through files that resolve (a file that does not resolve has no known imports)"""
+    faults = mfaults(faults)
     seen, stack = set(), list(req)
     while stack:
         x = stack.pop()
@@ -56,6 +68,7 @@ def on_cycle(imports, x, allowed):
 
 def spec(n, imports, req, faults):
     """expected verdict from the graph alone (what the theorems say): returns dict"""
+    faults = mfaults(faults)
     R = reach_set(n, imports, req, faults)
     resolvable = {x for x in R if faults.get(x, "") not in ("missing", "err", "panic")}
     cyc = any(on_cycle(imports, x, resolvable) for x in resolvable)
@@ -64,6 +77,7 @@ def spec(n, imports, req, faults):
 
 
 def coq_case(n, imports, faults, req, par, ok, cycle):
+    faults = mfaults(faults)
     rres = [RK[faults.get(i, "")] for i in range(n)]
     lres = [faults.get(i, "") != "link" for i in range(n)]
     return ("{| c_n := %d; c_imports := %s; c_rres := %s; c_lres := %s; c_req := %s; c_par := %d; c_ok := %s; c_cycle := %s |}"
